@@ -244,6 +244,21 @@ Proof. exact one_hot_spec. Qed.
 Goal True. idtac "ASSUMPTIONS one_hot_unit_vectors". Abort.
 Print Assumptions one_hot_unit_vectors.
 
+(* label containers of shape (n,) and (n,1) (column ndarray / nested list, read row by row) denote the same n labels
+   and are encoded identically, so the two theorems above apply to all of them; a container is of the (n,1) form only
+   if it is the column of some label list *)
+Theorem one_hot_label_containers :
+  forall y, one_hot_c (Column (map (fun x => [x]) y)) = one_hot y /\ one_hot_c (Flat y) = one_hot y.
+Proof. exact one_hot_column. Qed.
+Goal True. idtac "ASSUMPTIONS one_hot_label_containers". Abort.
+Print Assumptions one_hot_label_containers.
+
+Theorem one_hot_column_reading :
+  forall rows y, labels_of (Column rows) = Some y -> rows = map (fun x => [x]) y.
+Proof. exact labels_of_column_inv. Qed.
+Goal True. idtac "ASSUMPTIONS one_hot_column_reading". Abort.
+Print Assumptions one_hot_column_reading.
+
 Theorem one_hot_rows_distinguish_labels :
   forall y a b ka kb,
   index_of a (uniques y) = Some ka -> index_of b (uniques y) = Some kb -> In a y -> In b y ->
@@ -251,6 +266,11 @@ Theorem one_hot_rows_distinguish_labels :
 Proof. exact one_hot_injective. Qed.
 Goal True. idtac "ASSUMPTIONS one_hot_rows_distinguish_labels". Abort.
 Print Assumptions one_hot_rows_distinguish_labels.
+
+Example one_hot_column_example :
+  one_hot_c (Column [[3]; [-1]; [3]; [7]]%Z) = Some [[0;1;0]; [1;0;0]; [0;1;0]; [0;0;1]] /\
+  one_hot_c (Column [[3]; [-1; 3]]%Z) = None.
+Proof. vm_compute. split; reflexivity. Qed.
 
 Example one_hot_example :
   one_hot [3; -1; 3; 7; -1]%Z = Some [[0;1;0]; [1;0;0]; [0;1;0]; [0;0;1]; [1;0;0]].
